@@ -47,6 +47,7 @@ FLAGS = ["FixPushDriftSync", "FixEmptyPush", "FixQueueFlush", "FixSyncAsync", "F
 CODE = {f: False for f in FLAGS}     # pkg/rpc at the pinned commit
 REP = {f: True for f in FLAGS}       # every repair applied
 FORMULAS = ["ConvergedAtQuiescence", "ResyncAfterDrift", "NoForeverBlock", "ReadYourWrite"]
+TRACE_ONLY_FORMULAS = ["ActivityAtQuiescence"]   # judged on the logged Is() of the mirror
 TRACE_FLAGS = dict(FixQueueFlush=False, FixShallowSum=False)
 
 # sync configurations of the model and the harness configuration that realises them
@@ -312,7 +313,17 @@ def free_cases(n, rnd):
             if rnd.random() < 0.5:
                 steps.append(dict(k="sleep", us=rnd.choice([50, 400, 2000, 6000])))
             if drops and rnd.random() < 0.2:
-                steps += [dict(k="cut"), dict(k="waitready", ms=5000)]
+                steps.append(dict(k="cut"))
+                if rnd.random() < 0.6:
+                    # the source changes the ACTIVITY of a state while the client is away
+                    s2 = rnd.choice(["A", "B"])
+                    if s2 in active:
+                        active.discard(s2)
+                        steps.append(dict(k="src", op="remove", states=[s2]))
+                    else:
+                        active.add(s2)
+                        steps.append(dict(k="src", op="add", states=[s2]))
+                steps.append(dict(k="waitready", ms=5000))
         if push == 0 or rnd.random() < 0.2:
             # pushes disabled: only a reply or a sync exports the last local change
             cid += 1
@@ -447,8 +458,11 @@ def cause_of(case, lines, names):
     return "other"
 
 
-def judge(rep, cases, outcomes, files, viol, drift, seen):
-    """Turn TLC's verdicts on the logged values into violations; return statistics."""
+def judge(rep, cases, outcomes, files, viol, drift, seen, suspects=None):
+    """Turn TLC's verdicts on the logged values into violations; return statistics.
+    suspects: list collecting (case, formula) of violations on NON-conforming traces; they
+    are not reported here but re-run alone (recheck_suspects) - on a starved host a
+    logging-order artefact can make a trace of the unchanged code look non-conforming."""
     by_label = {c["label"]: c for c in cases}
     n_viol = 0
     confirmed, incomplete = Counter(), []
@@ -470,6 +484,11 @@ def judge(rep, cases, outcomes, files, viol, drift, seen):
             key = (name, cause, sig["conforms"])
             confirmed[key] += 1
             n_viol += 1
+            if drifts and suspects is not None:
+                if not any(c2["label"] == c["label"] and n2 == name for c2, n2 in suspects) and \
+                        sum(1 for c2, n2 in suspects if n2 == name) < 6:
+                    suspects.append((c, name))
+                continue
             if key in seen:
                 continue
             seen[key] = o["label"]
@@ -483,6 +502,44 @@ def judge(rep, cases, outcomes, files, viol, drift, seen):
                 label=c["label"], cfg=c["cfg"], forced=c["forced"], steps=c["steps"]),
                 hist=c.get("hist"), predicted=c.get("predicted"), observed=lines), text)
     return n_viol, confirmed, incomplete
+
+
+def recheck_suspects(rep, binary, d, suspects, seen):
+    """A formula false on a trace that does NOT conform to the specification of the code as
+    it is: run the case alone, twice more.  Reported (never matched by a known finding,
+    whose signatures say conforms=true) only when the formula is false and the trace
+    non-conforming every time; when the reruns conform, they are judged like any other."""
+    if not suspects:
+        return
+    cases = []
+    for c, _ in suspects:
+        if all(c["label"] != x["label"] for x in cases):
+            cases.append(c)
+    runs = []
+    for k in range(2):
+        out, files = run_driver(binary, cases, d, "re%d" % k, 2, shards=1)
+        viol, drift, stat, lines = validate(files)
+        runs.append((out, files, viol, drift))
+    kept = 0
+    for c, name in suspects:
+        again = [name in viol.get(c["label"], set()) for _, _, viol, _ in runs]
+        dr = [bool(drift.get(c["label"])) for _, _, _, drift in runs]
+        done = [any(o["label"] == c["label"] and o["completed"] for o in out) for out, _, _, _ in runs]
+        if all(again) and all(dr) and all(done):
+            out, files, viol, drift = runs[-1]
+            sub_out = [o for o in out if o["label"] == c["label"]]
+            judge(rep, [c], sub_out, files, {c["label"]: {name}}, drift, seen)
+            kept += 1
+        elif all(again) and all(done):
+            # reproduces on conforming traces: an ordinary (possibly known) violation
+            k = dr.index(False)
+            out, files, viol, drift = runs[k]
+            sub_out = [o for o in out if o["label"] == c["label"]]
+            judge(rep, [c], sub_out, files, {c["label"]: {name}}, {}, seen)
+        else:
+            rep.notes.append("%s on a non-conforming trace of %s did not reproduce when run alone "
+                             "(formula false %s, drift %s): no verdict" % (name, c["label"], again, dr))
+    rep.coverage["suspects_rechecked"] = dict(total=len(suspects), reproduced_nonconforming=kept)
 
 
 def check(tier):
@@ -549,8 +606,10 @@ def check(tier):
                                              "300 ms and 1 retry: call() builds a timeout context but passes the "
                                              "parent context to rpc2")
             seen = {}
-            n3, conf3, inc3 = judge(rep, b3, out3, files3, viol3, drift3, seen)
-            n1, conf1, inc1 = judge(rep, b1, out1, files1, viol1, drift1, seen)
+            suspects = []
+            n3, conf3, inc3 = judge(rep, b3, out3, files3, viol3, drift3, seen, suspects)
+            n1, conf1, inc1 = judge(rep, b1, out1, files1, viol1, drift1, seen, suspects)
+            recheck_suspects(rep, binary, d, suspects, seen)
 
             completed3 = [o for o in out3 if o["completed"]]
             completed1 = [o for o in out1 if o["completed"]]
